@@ -43,6 +43,48 @@ def entryDecides (v : Option Int) (no : Int) : Bool :=
   | none => false
   | some lv => decide (lv ≤ no)
 
+/-! ### the meaning of a registered filter, declaratively (no slice kernel, no `rfind` loop, no fuel) -/
+
+/-- the entry of the LONGEST key of the table that names `M` or one of its parent packages (for one key, its first
+entry – a `dict` holds one) -/
+def closest : List (Option Str × Option Int) → Str → Option (Str × Option Int)
+  | [], _ => none
+  | (some k, v) :: rest, M =>
+    if pkgParent k M then
+      match closest rest M with
+      | some b => if k.length < b.1.length then some b else some (k, v)
+      | none => some (k, v)
+    else closest rest M
+  | (none, _) :: rest, M => closest rest M
+
+/-- what the property says a filter accepts: `None` – everything; `""` – every module that has a name; a name `p`
+– the module `p` and the modules inside package `p`; a dict – the closest-parent rule (`False` rejects, a level is
+a minimum severity, no entry accepts; a module without name consults the `None` key only); a callable – what it
+returns -/
+def acceptsD (orc : Oracle) (f : Filter) (no : Int) (M : Option Str) : Bool :=
+  match f with
+  | .none => true
+  | .notNone => M.isSome
+  | .byName parent _ =>
+    (match M with
+     | none => false
+     | some n => pkgParent parent.dropLast n)
+  | .byLevel tbl =>
+    (match M with
+     | none => (match tbl.lookup none with | some v => entryDecides v no | none => true)
+     | some n => (match closest tbl n with | some b => entryDecides b.2 no | none => true))
+  | .callable k => orc k no M
+
+/-- the shape of a filter `add` registers for a well-formed `filter=` argument -/
+def WFFilter : Filter → Prop
+  | .byName parent length => ∃ p, p ≠ [] ∧ parent = p ++ ['.'] ∧ length = Int.ofNat (p ++ ['.']).length
+  | _ => True
+
+/-- the declarative delivery list: registered handlers, in registration order, whose threshold is at or below
+the severity and whose filter – read declaratively – accepts -/
+def deliverD (orc : Oracle) (s : SState) (no : Int) (M : Option Str) : List Nat :=
+  (s.regs.filter (fun h => decide (h.2.threshold ≤ no) && acceptsD orc h.2.filter no M)).map (·.1)
+
 def levelNoS (levels : List (Str × Int)) : LevelArg → Except Err Int
   | .bad => .error .typeError
   | .name s => getLevel levels s
@@ -80,6 +122,7 @@ def sAdd (s : SState) (a : AddArgs) : SState × Out :=
 
 def sPrim (orc : Oracle) (s : SState) : Op → SState × Out
   | .add a => sAdd s a
+  | .addBad => ({ s with nextId := s.nextId + 1 }, .err .typeError)      -- every call takes an id
   | .remove id =>
     -- a registered handler is unregistered whether or not its sink's stop() raises
     if 0 ≤ id then
@@ -99,9 +142,25 @@ def sPrim (orc : Oracle) (s : SState) : Op → SState × Out
   | .activateBad _ => (s, .err .typeError)
   | .configure _ _ _ => (s, .err .other)
   | .log lv M lazy => (s, sLog orc s lv M lazy)
+  -- an overlapped call may legally follow either state; at the two fixed points of `Op.logDuring` it is: the
+  -- NEW activation state when the change came before the reader looked at the cache, the OLD one otherwise –
+  -- and every LATER call follows the new state
+  | .logDuring lv M lazy early p st =>
+    ({ s with acts := (p, st) :: s.acts },
+     if early then sLog orc { s with acts := (p, st) :: s.acts } lv M lazy else sLog orc s lv M lazy)
+
+/-- `configure` as documented: when handlers are given every registered handler is removed FIRST; then the levels
+are declared, then the enable/disable calls are made in list order, and the handlers are added LAST (so a
+handler may name a level declared by the same call); the call stops at the first error -/
+def expandS (handlers : Option (List AddArgs)) (levels : List (Str × NoArg × Bool))
+    (activation : List (Option Str × Bool)) : List Op :=
+  (match handlers with | some _ => [Op.removeAll] | none => [])
+    ++ levels.map (fun l => Op.level l.1 l.2.1 l.2.2)
+    ++ activation.map (fun a => Op.activate a.1 a.2)
+    ++ (match handlers with | some hs => hs.map Op.add | none => [])
 
 def sStep (orc : Oracle) (s : SState) : Op → SState × Out
-  | .configure h l a => runBatch (sPrim orc) s (expand h l a) []
+  | .configure h l a => runBatch (sPrim orc) s (expandS h l a) []
   | op => sPrim orc s op
 
 def runSpec (orc : Oracle) : SState → List Op → List Out
